@@ -9,7 +9,7 @@ from pysym.core import prove, assume, axiom, EngineEscape
 from pysym.harness import harness
 from pysym.proxies import SInt, SBool, Proxy, lift
 from pysym.restub import ReStub
-from pysym.strings import SStr, is_s, is_ident_char, is_ascii, Int
+from pysym.strings import SStr, is_s, is_ident_char, is_ascii, is_code_point, uni_word, Int
 
 MOD = 'supp.assistant'
 
@@ -53,12 +53,21 @@ def ascii_line(base):
     axiom(z3.ForAll([k], z3.Implies(z3.And(k >= 0, k < base.n), is_ascii(base.ch(k)))))
 
 
+def text_line(base):
+    """any line of Unicode text (identifiers may contain non-ASCII letters)"""
+    k = z3.Int('ak')
+    axiom(z3.ForAll([k], z3.Implies(z3.And(k >= 0, k < base.n), is_code_point(base.ch(k)))))
+
+
 PREFIX_REPLAY = '''import sys; sys.path.insert(0, %(repo)r)
 from supp.assistant import assist
 from supp.project import Project
 import re
 line = %(line)r
-want = re.search(r'[A-Za-z0-9_]*$', line).group()
+i = len(line)
+while i > 0 and (line[i - 1] == '_' or line[i - 1].isalnum()):
+    i -= 1
+want = line[i:]          # the specification: longest run of identifier characters left of the cursor
 # the source may continue after the cursor: try continuations that make the marked text parse
 tried = 0
 for tail in ('', ')', ']', '}', ' 1', ': pass', chr(10), ' = 1', ' in x: pass', '))', ')]', '"', "'"):
@@ -83,13 +92,19 @@ def line_from_model(model, base, lo, hi):
     a, b = ev(lo), ev(hi)
     if b - a > 200:
         return None
-    return ''.join(chr(max(32, min(126, ev(base.ch(z3.IntVal(i)))))) for i in range(a, b))
+    def char(i):
+        c = ev(base.ch(z3.IntVal(i)))
+        if c >= 128:
+            # a non-ASCII code point: a letter when the model makes it a word character, a currency sign otherwise
+            return '\u00e9' if z3.is_true(model.eval(uni_word(z3.IntVal(c)), model_completion=True)) else '\u20ac'
+        return chr(max(32, min(126, c)))
+    return ''.join(char(i) for i in range(a, b))
 
 
 @harness('C12', 'supp.assistant.assist[prefix, name/attribute path]', twins=('spec-ident-includes-minus',))
 def assist_prefix_main(run, twin=None):
-    """the real assist() with the cursor line an arbitrary ASCII string, no marked import: the returned prefix is
-    the longest run of [A-Za-z0-9_] immediately left of the cursor"""
+    """the real assist() with the cursor line an arbitrary string of Unicode text, no marked import: the returned prefix is
+    the longest run of identifier characters ([A-Za-z0-9_] and the non-ASCII letters / digits) immediately left of the cursor"""
     full = {}
 
     def conc(model, ob):
@@ -114,7 +129,7 @@ def assist_prefix_main(run, twin=None):
 
     def body():
         line = SStr.sym('line')
-        ascii_line(line.base)
+        text_line(line.base)
         assume(z3.And(col >= 0, col <= line.n()))
         full['line'] = line
         nice = lambda c: z3.Or(is_ident_char(c), *[c == ord(x) for x in ' =([{,+-*/:<>.'])
@@ -123,6 +138,10 @@ def assist_prefix_main(run, twin=None):
         run.small_model_hints = [z3.And(line.base.n == m, col == m, chs(m - 1) == 98, chs(m - 2) == ord(sep), chs(m - 3) == 97,
                                         *[z3.Or(alpha(chs(i)), chs(i) == 32) for i in range(m - 3)])
                                  for m in (3, 16, 17, 18, 20) for sep in '=,+'] + \
+                                [z3.And(line.base.n == m, col == m, chs(m - 1) == 233, uni_word(z3.IntVal(233)), chs(m - 2) == 97, chs(m - 3) == 32,
+                                        *[alpha(chs(i)) for i in range(m - 3)]) for m in (3, 4)] + \
+                                [z3.And(line.base.n == m, col == m, chs(m - 1) == 98, chs(m - 2) == 233, uni_word(z3.IntVal(233)), chs(m - 3) == 32,
+                                        *[alpha(chs(i)) for i in range(m - 3)]) for m in (3, 4)] + \
                                 [z3.And(line.base.n <= m, *[nice(chs(i)) for i in range(m)]) for m in (3, 5, 8)] + [line.base.n <= 16]
         full['cut'] = SStr(line.base, line.lo, z3.simplify(line.lo + col))
         holder['out'] = None
@@ -170,7 +189,7 @@ def assist_prefix_from(run):
 
     def body():
         line = SStr.sym('line')
-        ascii_line(line.base)
+        text_line(line.base)
         holder['line'] = line
         # domain: blanks, then `from `, then identifier characters / dots / blanks
         i0 = z3.Int('indent')
@@ -258,7 +277,7 @@ def assist_prefix_import(run):
             pre = 'import ' if form == 'import' else 'from ' if form == 'from-module' else 'from m import '
             A, B = SStr.sym('A'), SStr.sym('B')
             for s in (A, B):
-                ascii_line(s.base)
+                text_line(s.base)
             if form == 'from-name':
                 domain_chars(A, is_ident_char)
                 domain_chars(B, is_ident_char)
@@ -395,7 +414,7 @@ def assist_proposals(run, twin=None):
             table.arb = None
             holder.clear()
             line = SStr.sym('line')
-            ascii_line(line.base)
+            text_line(line.base)
             # not the `from ` early return: the line does not start with it
             assume(z3.Not(z3.And(line.n() >= 5, line.match_at(0, 'from '))))
             assume(z3.Or(line.n() == 0, z3.And(line.at(0) != 32, line.at(0) != 9)))
